@@ -221,3 +221,19 @@ CHECKS["C17"] = {
             "connection released.",
     "note": TRUST + " A redirect chain is sequential, so the default schedule is the only schedule; TLS is not modelled (an https origin is a distinct connection key).",
 }
+
+CHECKS["C09"] = {
+    "engine": "SCHED",
+    "design_ref": "§3 C09, §2.1-2.3",
+    "technique": "deviation-bounded exhaustive exploration of wire segmentation x consumer read pattern on the real client protocol/parser/StreamReader, plus exhaustive bit-flip / truncation enumeration and a server-side size enumeration",
+    "text": "sched: about 110 scenarios (body family: empty, text, 512 KiB bomb, mixed bytes, multi-member gzip x coding identity/gzip/zlib-deflate/raw-deflate/br/zstd x "
+            "framing length/chunked/until-close x read_bufsize 1..8192 x consumer pattern readany / read(n) / read(1) / readchunk / read() / idle variants) run a real "
+            "ResponseHandler + parser + StreamReader on the in-memory wire, where pause_reading really stops delivery; every schedule with <= d deviations over segment "
+            "sizes (all, 300, 7, 1, head end, next line), peer close and consumer wake-ups is executed.  Reads must equal the reference decode, the consumer must "
+            "reach end-of-body (blocked consumer with a paused transport or with all data delivered = violation), resident decoded bytes are bounded at every pass. "
+            "corrupt: every single-bit flip and every truncation of a short body per coding x framing x 2 segmentations must end in a payload error or in exactly the "
+            "bytes a streaming reference decoder accepts.  server: coding x client_max_size x body size x read()/post() x framing x segment size: 413 above the limit, "
+            "never more than client_max_size returned.",
+    "note": TRUST + " d=2 quick, 3 thorough. Resident bound = 4 x read_bufsize + largest segment + 128 KiB (codec block granularity; brotli emits up to ~96 KiB "
+            "whatever the limit); read() without a size lifts the limit by design and is not judged for memory; reference decoders: zlib, gzip, brotli, backports.zstd.",
+}
